@@ -267,6 +267,16 @@ type c14Case struct {
 	Write int  `json:"write,omitempty"`
 	OAM   int  `json:"oam,omitempty"` // object configuration (see c13Fresh)
 	Debug bool `json:"debug_lcd,omitempty"`
+	// Junk: STAT is written with bit 7 and the read-only bits 0-2 set as well (what a read-modify-write of STAT stores);
+	// only bits 3-6 select sources
+	Junk bool `json:"junk_bits,omitempty"`
+}
+
+func (c c14Case) statValue() uint8 {
+	if c.Junk {
+		return statBit[c.Source] | 0x87
+	}
+	return statBit[c.Source]
 }
 
 // register writes that must not move, add or remove a VBlank/STAT request (LCDC values keep bit 7)
@@ -282,7 +292,7 @@ func c14Check(l *explore.Local, _ struct{}, c c14Case) *explore.Fail {
 		// run once to OffFrom, then try every position from a snapshot of (PPU, OAM, interrupts)
 		m, lm := c13FreshOpt(c.OAM, c.Debug)
 		m.Map.Write(0xff45, uint8(c.LYC))
-		m.Map.Write(0xff41, statBit[c.Source])
+		m.Map.Write(0xff41, c.statValue())
 		m.Map.Write(0xff0f, 0)
 		t := 0
 		for ; t < c.OffFrom; t++ {
@@ -336,7 +346,7 @@ func c14Check(l *explore.Local, _ struct{}, c c14Case) *explore.Fail {
 	}
 	m, lm := c13FreshOpt(c.OAM, c.Debug)
 	m.Map.Write(0xff45, uint8(c.LYC))
-	m.Map.Write(0xff41, statBit[c.Source])
+	m.Map.Write(0xff41, c.statValue())
 	m.Map.Write(0xff0f, 0)
 	return c14Run(l, m, lm, c, 0)
 }
@@ -581,6 +591,10 @@ func init() {
 								if !yield(c14Case{Source: src, LYC: y, Frames: 3, OffAt: -1, OAM: oam}) {
 									return
 								}
+							}
+							// the source selected by a value that also has bit 7 and bits 0-2 set
+							if !yield(c14Case{Source: src, LYC: y, Frames: 3, OffAt: -1, OAM: 1, Junk: true}) {
+								return
 							}
 							// the same machine built with the LCD debugging option
 							if !yield(c14Case{Source: src, LYC: y, Frames: 3, OffAt: -1, OAM: 1, Debug: true}) {
